@@ -522,7 +522,12 @@ func (p Parameters) MaxBit(levelQ, levelP int) (c int) {
 // If levelP > 0 or Base2Decomposition == 0, then returns 1 for all qi.
 func (p Parameters) BaseTwoDecompositionVectorSize(levelQ, levelP, Base2Decomposition int) (base []int) {
 
-	logqi := p.LogQi()
+	// The digits must cover every residue in [0, qi): the bit length of qi,
+	// not round(log2(qi)), which is one short for primes just above a power of two.
+	logqi := make([]int, len(p.qi))
+	for i, qi := range p.qi {
+		logqi[i] = bits.Len64(qi)
+	}
 
 	base = make([]int, len(logqi))
 
